@@ -177,7 +177,13 @@ def ensure_driver():
 
 def ensure_catalogue():
     import catalogue
-    return catalogue.emit_rs(HARNESS + '/src/catalogue.rs')
+    cat = catalogue.emit_rs(HARNESS + '/src/catalogue.rs')
+    try:
+        import sizes
+        sizes.emit_rs(HARNESS + '/src/sizes_gen.rs')
+    except ImportError:
+        pass
+    return cat
 
 
 def harness_path(cfg, release=False):
